@@ -260,6 +260,17 @@ macro_rules! for_config {
             "64x8" => $m!(BUint, BInt, u64, 8),
             "64x16" => $m!(BUint, BInt, u64, 16),
             "64x128" => $m!(BUint, BInt, u64, 128),
+            "8x7" => $m!(BUintD8, BIntD8, u8, 7),
+            "8x9" => $m!(BUintD8, BIntD8, u8, 9),
+            "8x12" => $m!(BUintD8, BIntD8, u8, 12),
+            "8x24" => $m!(BUintD8, BIntD8, u8, 24),
+            "8x64" => $m!(BUintD8, BIntD8, u8, 64),
+            "16x9" => $m!(BUintD16, BIntD16, u16, 9),
+            "16x12" => $m!(BUintD16, BIntD16, u16, 12),
+            "32x12" => $m!(BUintD32, BIntD32, u32, 12),
+            "64x9" => $m!(BUint, BInt, u64, 9),
+            "64x12" => $m!(BUint, BInt, u64, 12),
+            "64x64" => $m!(BUint, BInt, u64, 64),
             _ => None,
         }
     };
